@@ -38,6 +38,7 @@ def run(c):
     c.tlc_mc("NoiseChan", "MCNoiseChan_canary2.cfg", expect=["CorruptDetected", "Prefix"])
     if not c.quick:
         c.tlc_mc("NoiseChan", "MCNoiseChan5.cfg", timeout=1500)
+        c.tlc_mc("NoiseChan", "MCNoiseChan7.cfg", timeout=1500)
     drv = c.build("drv-secure")
     if c.replay:
         t = c.rundir / "replay_trace.ndjson"
